@@ -671,12 +671,16 @@ def evaluate__idiv_operator(self: XPathToken, context: ta.ContextType = None) ->
         if isinstance(context, XPathSchemaContext):
             return 1
         raise self.error('FOAR0001' if op2 == 0 else 'FOAR0002') from None
-    else:
+
+    try:
         if result >= 0 or isinstance(op1, Decimal) or \
                 isinstance(op2, Decimal) or result * op2 == op1:
             return int(result)
         else:
             return int(result) + 1
+    except (OverflowError, ValueError) as err:
+        # The quotient of two doubles can be infinite (e.g. 1e300 idiv 1e-300)
+        raise self.error('FOAR0002', err) from None
 
 
 # Resolve the intrinsic ambiguity of some infix operators
